@@ -298,34 +298,39 @@ impl DataLog {
         // discard expired retained messages
         self.retained_publishes.retain(|_, pubdata| {
             // Keep data if no properties exists, which implies no message expiry!
-            let Some(properties) = pubdata.properties.as_mut() else {
+            let Some(properties) = pubdata.properties.as_ref() else {
                 return true;
             };
 
             // Keep data if there is no message_expiry_interval
-            let Some(message_expiry_interval) = properties.message_expiry_interval.as_mut() else {
+            let Some(message_expiry_interval) = properties.message_expiry_interval else {
                 return true;
             };
 
             let time_spent = (now - pubdata.timestamp).as_secs() as u32;
 
-            let is_valid = time_spent < *message_expiry_interval;
-
             // ignore expired messages
-            if is_valid {
-                // set message_expiry_interval to (original value - time spent waiting in server)
-                // ref: https://docs.oasis-open.org/mqtt/mqtt/v5.0/os/mqtt-v5.0-os.html#_Toc3901112
-                *message_expiry_interval -= time_spent;
-            }
-
-            is_valid
+            time_spent < message_expiry_interval
         });
 
         // no need to include timestamp when returning
         self.retained_publishes
             .iter()
             .filter(|(topic, _)| matches(topic, filter))
-            .map(|(_, p)| (p.publish.clone(), p.properties.clone()))
+            .map(|(_, p)| {
+                let mut properties = p.properties.clone();
+                // set message_expiry_interval to (original value - time spent waiting in server)
+                // in the copy that goes out; the stored message keeps its interval and arrival time
+                // ref: https://docs.oasis-open.org/mqtt/mqtt/v5.0/os/mqtt-v5.0-os.html#_Toc3901112
+                if let Some(message_expiry_interval) = properties
+                    .as_mut()
+                    .and_then(|p| p.message_expiry_interval.as_mut())
+                {
+                    let time_spent = (now - p.timestamp).as_secs() as u32;
+                    *message_expiry_interval = message_expiry_interval.saturating_sub(time_spent);
+                }
+                (p.publish.clone(), properties)
+            })
             .collect()
     }
 }
